@@ -110,8 +110,13 @@ class ModelAudit:
 				y = self.model(x, *args)
 				if isinstance(y, (tuple, list)):
 					y = y[0]
-				g = torch.autograd.grad(y.sum(), x)[0]
-			return ("ok", _sha(y), _sha(g))
+				# ordinary gradients: w.r.t. the input and w.r.t. every
+				# parameter (as a training step would take them)
+				params = [p for p in self.model.parameters()]
+				gs = torch.autograd.grad(y.sum(), [x] + params,
+					allow_unused=True)
+			return ("ok", _sha(y), tuple("-" if g is None else _sha(g)
+				for g in gs))
 		except Exception as e:
 			return ("raise", type(e).__name__, str(e)[:200])
 		finally:
@@ -127,8 +132,10 @@ class ModelAudit:
 			attrs[name] = sorted(a for a in ("input", "output", "handles",
 				"_NON_LINEAR_OPS") if a in m.__dict__)
 		state = {k: _sha(v) for k, v in self.model.state_dict().items()}
+		flags = {k: (bool(p.requires_grad), p.grad is None)
+			for k, p in self.model.named_parameters()}
 		return {"hooks": hooks, "state": state, "attrs": attrs,
-			"behaviour": self._behaviour()}
+			"flags": flags, "behaviour": self._behaviour()}
 
 	def diff(self):
 		after = self._snap()
@@ -147,6 +154,11 @@ class ModelAudit:
 		for k in self.before["state"]:
 			if k not in after["state"]:
 				out.append(("state", "parameter/buffer '%s' disappeared" % k))
+		for k, v in after["flags"].items():
+			b = self.before["flags"].get(k)
+			if b is not None and b != v:
+				out.append(("state", "parameter '%s': (requires_grad, "
+					"grad is None) changed from %s to %s" % (k, b, v)))
 		if after["behaviour"] != self.before["behaviour"]:
 			out.append(("behaviour", "probe forward/gradient: before=%s "
 				"after=%s" % (self.before["behaviour"], after["behaviour"])))
